@@ -310,3 +310,26 @@ CHECKS["C03"] = dict(
     bounds="assertion configuration (every SYMENGINE_ASSERT redirected to the engine, 11 000 sites): 24 one-argument function constructors on 8 argument shapes (integer, rational, Gaussian, n/d*pi, x+n/d*pi, n*x, -x, complex*x) with symbolic n |n|<=2 (5); radical products, nested powers, sqrt(x^2)^2; plus the C07 tree, C10 diff (and in the thorough tier C09, C11, C04) harnesses re-run under assertions; independent structural validator of the documented invariants on every result",
     outside=["series, solve, parsing and deserialisation results", "API call sequences longer than three operations"],
 )
+
+CHECKS["C27"] = dict(
+    src="C27.cpp", level="model_checking",
+    entries=[
+        dict(name="harness_c27_binary", quick={"B": 2}, thorough={"B": 3, "_wall": 1700}),
+        dict(name="harness_c27_ternary", quick={"B": 1}, thorough={"B": 2, "_wall": 1700}, thorough_only=True),
+        dict(name="harness_c27_topology", quick={"B": 2}, thorough={"B": 3}),
+    ],
+    anchors=["SymEngine::Interval::set_union", "SymEngine::Interval::set_intersection", "SymEngine::set_union", "SymEngine::set_intersection", "SymEngine::set_complement", "SymEngine::Interval::contains", "SymEngine::FiniteSet::contains", "SymEngine::closure", "SymEngine::interior", "SymEngine::boundary"],
+    bounds="operands: intervals with symbolic integer end points |e|<=2 (3) and all open/closed flags, half-lines to -oo/+oo, finite sets of two symbolic integers, empty set, reals, rationals, integers, universal set; all ordered pairs (triples in the thorough tier) under union, intersection, complement (free functions and member functions); the test point is a symbolic half-integer covering end points and gaps; membership in the result by an independent structural walker and by contains(); closure/interior/boundary of a union of two intervals",
+    outside=["rational end points with other denominators", "ImageSet, ConditionSet", "sup/inf"],
+)
+
+CHECKS["C28"] = dict(
+    src="C28.cpp", level="model_checking",
+    entries=[
+        dict(name="harness_c28_connectives", quick={"B": 1}, thorough={"B": 2, "_wall": 1700}),
+        dict(name="harness_c28_piecewise", quick={"B": 2}, thorough={"B": 3}),
+    ],
+    anchors=["SymEngine::and_or", "SymEngine::logical_not", "SymEngine::logical_xor", "SymEngine::piecewise", "SymEngine::Contains"],
+    bounds="formulas over three atoms from {x<c, x<=c, Eq, Ne, x>c, Contains(x, Interval), Contains(x, FiniteSet)} with symbolic integer constants |c|<=1 (2): And, Or, Not, Xor, Nand, Nor, Xnor of 2-3 atoms and three nested shapes; truth compared at a symbolic half-integer value of x; piecewise with two symbolic conditions",
+    outside=["opaque boolean symbols as atoms", "atoms on two different symbols"],
+)
